@@ -382,6 +382,9 @@ func unchangedWhereNoWriter(n *spec.Node, before, after any, path string) string
 }
 
 func (c19) RunCase(c *core.Ctx) {
+	if c.Case%97 == 23 && !w10(c, "C19") {
+		return
+	}
 	if c.Case%200 == 17 && !c19PointerDefault(c) {
 		return
 	}
